@@ -307,8 +307,10 @@ def getitemSliceRun (H : Key → String) (p : Printer) (f : SliceFn) (st : St) (
 sliced): the `Slice` node stays, the `GetItem` node is not kept -/
 def getitemSliceX (H : Key → String) (p : Printer) (f : SliceFn) (st : St) (parent : Option Nat) (owner : Nat)
     (slabel : String) (start stop step : Operand) (chanOf : Nat → Nat) (ready : Bool) (sN bN cN : Bool)
-    (gRaised : Bool) : St × Nat × Option Nat :=
-  let es : Expr := { owner := owner, slabel := slabel, cls := "Slice", ops := [start, stop, step] }
+    (gRaised : Bool) (sliceOwner : Nat × String := (owner, slabel)) : St × Nat × Option Nat :=
+  -- `sliceOwner`: what of the sliced channel enters the key of the helper node.  In /repo its scoped label does
+  -- (although the helper is not wired to it); a lookup by wiring cannot and does not tell the owners apart
+  let es : Expr := { owner := sliceOwner.1, slabel := sliceOwner.2, cls := "Slice", ops := [start, stop, step] }
   let r1 := inject H p st parent es
   if r1.2 == st.next && sliceRaises f ready sN bN cN then ({ st with next := st.next + 1 }, st.next, none)
   else
